@@ -138,21 +138,14 @@ CHECKS["C12"] = {"text": "The model's update_pert (forward pass, critical path l
     "sequences of progress updates + update_PERT_data(t).",
     "note": COMMON_NOTE,
     "technique": "Coq proof (generic frontier/worklist invariant with rank-based termination, instantiated for the forward and backward pass; Q arithmetic by lra) + model/implementation correspondence of PERT fields + independent CPM oracle"}
-CHECKS["C15"] = {"text": "Proved for every configuration, options, incoming state, pause step k and final max_time m >= k: the run resumed from the state returned by the paused run (initialize_state_info = "
-    "initialize_log_info = False, which is proved to leave the state untouched) returns exactly the state of the uninterrupted run -- all logs, costs, time, status and live state -- provided the PERT refresh is idempotent at the "
-    "`updated` snapshots of the run (the resumed run calls __update once more; the rest of __update is PROVED idempotent there: finishing pass, component states, removal of finished assemblies, ready check). The proof shows that no phase reads project.status (35 commutation lemmas over every function of the step), that the loop is deterministic, and "
-    "splits the uninterrupted trace at the pause point. The side condition is checked on the implementation at every step of every explored run (second __update call from the observer); the model is tied to the code by "
-    "the full-state correspondence on a paused+resumed operation sequence. Pause at EVERY k in 0..makespan and the route through a JSON file are searched by the oracle.",
-    "note": COMMON_NOTE + " PARTIAL: idempotence of the PERT refresh at the pause point is a hypothesis of the theorem (validated per run, not proved: the forward pass can re-read a stale earliest-finish value when a WORKING "
-    "task has negative remaining work, so a general proof needs a side condition on the state); uses functional_extensionality_dep; the JSON route relies on C16.",
-    "technique": "Coq proof (status-independence of every phase, determinism and trace splitting) + per-run validation of the idempotence side condition + model/implementation correspondence on pause+resume + oracle pausing at every step, in memory and through JSON"}
-CHECKS["C13"] = {"text": "Proved for every product that is a forest (flat and nested; no component reached twice), every configuration, options and run: (a) in every snapshot a workplace lists a component exactly "
-    "when the component reports being placed there and no component is listed twice (so at most one workplace); (b),(c),(d) a component is put somewhere only if no component of its assembly has moved in this step, has a "
-    "WORKING task or holds a resource, every component of the assembly comes from nowhere or from an input workplace the target declares, and its size minus 1e-8 is below the free space -- then exactly its assembly moves; "
-    "the moved list of one __allocate never contains a component twice; perform/record do not touch placement; (e) after __update no component of an assembly whose tasks are all FINISHED is placed; (f) in every snapshot "
-    "a task only holds facilities of the workplace where its component is placed; (b) run-level capacity bound (space used < capacity + 1e-8) for flat products. The model is tied to the code by the correspondence on "
-    "component states, placements, workplace lists and their logs at every snapshot; the oracle checks all clauses incl. nested capacity on the implementation.",
-    "note": COMMON_NOTE + " PARTIAL: the run-level capacity invariant is proved for flat products only (for nested products the code checks the size of the top component against the free space, the per-placement condition is "
-    "proved and the bound on top-most components is searched); the 1e-8 space tolerance of can_put appears in the bound.",
-    "technique": "Coq proof (placement-record invariant through detach/attach on forests, set_placed_comp/tree correspondence, invariant principle for __allocate with the moved list, facility-site invariant) + model/implementation correspondence of placement fields + oracle"}
+CHECKS["C15"] = {"text": "Proved for every configuration, options, incoming state, pause step k (beyond the makespan included) and final max_time m >= k: the run resumed from the state returned by the paused run "
+    "(initialize_state_info = initialize_log_info = False, proved to leave the state untouched) returns exactly the state of the uninterrupted run -- all logs, costs, time, status and live state -- (1) unconditionally for "
+    "every finish-to-start DAG with non-negative work amounts (any resources, rules, absences, components), (2) for every acyclic network with any mix of dependency kinds provided no task has negative remaining work at "
+    "the `updated` snapshots of the run, (3) for arbitrary models provided the PERT refresh is idempotent there. Ingredients: no phase reads project.status (35 commutation lemmas), the loop is deterministic, the trace "
+    "splits at the pause point, __update is idempotent on its own result (finishing pass, component states, removal, ready check proved directly; the PERT refresh by comparing two runs of the frontier iteration in lock "
+    "step). The remaining side condition of (2)/(3) is checked on the implementation at every step of every explored run (second __update call from the observer); the model is tied to the code by the full-state "
+    "correspondence on a paused+resumed operation sequence. Pause at EVERY k in 0..makespan and the route through a JSON file are searched by the oracle.",
+    "note": COMMON_NOTE + " PARTIAL only in this sense: for networks with FF/SF links a task can overshoot its work while blocked (negative remaining work); for such states the idempotence of the PERT refresh is a hypothesis "
+    "(validated per run). Uses functional_extensionality_dep (states are records of functions). The JSON route relies on C16.",
+    "technique": "Coq proof (status-independence of every phase, determinism and trace splitting, idempotence of __update incl. a relational two-run argument for the PERT passes) + per-run validation of the residual side condition + model/implementation correspondence on pause+resume + oracle pausing at every step, in memory and through JSON"}
 NOT_APPLICABLE = {}
